@@ -104,6 +104,9 @@ func sibTokens(info *types.Info, fd *ast.FuncDecl, subst map[string]string) []st
 		case *ast.BranchStmt:
 			toks = append(toks, x.Tok.String())
 		case nil:
+		case *ast.IfStmt, *ast.BlockStmt, *ast.SwitchStmt, *ast.CaseClause, *ast.ExprStmt, *ast.ParenExpr:
+			// how the control structure is spelled (if/else chain or tagless switch, extra parentheses) is not
+			// behaviour: the conditions and statements inside still appear, in order
 		default:
 			toks = append(toks, fmt.Sprintf("%T", n))
 		}
